@@ -8,7 +8,7 @@ ID = "C04"
 LIMIT = 90.0
 RULE = ("connected triangle meshes (closed: polyhedra, tori, ellipsoids, some with flipped triangles; open: grids, Delaunay) and tet "
         "meshes (oriented, mirrored i.e. uniformly negative, mixed), all vertices used x k in 2..6 x lump; each with transformed copies: "
-        "rotation+translation, reflection, vertex relabelling, element reordering, cyclic rotation, global flip (triangles), scaling "
+        "rotation+translation, translation by 1e5 diameters (spectrum and all three normalisations), reflection, vertex relabelling, element reordering, cyclic rotation, global flip (triangles), scaling "
         "s in {0.37, 2.5, 40, 1e-6, 3e-7, 1e3} (small and large length units); plus a second compute_shapedna on the SAME object after scaling its vertices in place. distinct = hash of "
         "the case; non-trivial = k >= 3")
 TRUSTED = ["ARPACK is an oracle (C03); float power vol ** (2/3) is certified by cubing inside Coq"]
@@ -106,6 +106,10 @@ def run_impl(case):
             var["all_flipped"] = (v.tolist(), [[x[0], x[2], x[1]] for x in t.tolist()])
         s = case["scale"]
         var["scaled"] = ((v * s).tolist(), t.tolist())
+        # world coordinates: the same mesh 1e5 diameters away from the origin
+        dfar = np.array([r.gauss(0, 1) for _ in range(3)])
+        vfar = v + dfar / np.linalg.norm(dfar) * (np.abs(v - v.mean(0)).max() + 1e-300) * 1e5
+        var["far_translated"] = (vfar.tolist(), t.tolist())
         evs = {}
         for name, (vv, tt) in var.items():
             evs[name] = np.asarray(_ev(cls(np.array(vv), np.array(tt)), case)["Eigenvalues"], dtype=float).tolist()
@@ -118,7 +122,7 @@ def run_impl(case):
         ms = cls(v.copy() * s, t.copy())
         evs_s = np.array(evs["scaled"])
         for meth in ("surface", "volume", "geometry"):
-            for tag, mm, ee in (("", m0, ev), ("_scaled", ms, evs_s)):
+            for tag, mm, ee in (("", m0, ev), ("_scaled", ms, evs_s), ("_far", cls(vfar.copy(), t.copy()), np.array(evs["far_translated"]))):
                 tb = np.array(mm.t).copy()
                 try:
                     out["norm_" + meth + tag] = np.asarray(shapedna.normalize_ev(mm, ee.copy(), method=meth), dtype=float).tolist()
@@ -215,14 +219,16 @@ def oracle(case, out):
                 bad("normalize_ev_multiplies_by_volume_to_two_thirds", f"{meth}: {str(r)[:80]} expected factor {vol ** (2 / 3)}",
                     "mirrored" if "mirrored" in case["family"] else None)
     for meth in ("surface", "volume", "geometry"):
-        a, b = out["norm_" + meth], out["norm_" + meth + "_scaled"]
-        if isinstance(a, str) or isinstance(b, str):
-            if a != b:
-                bad("normalised_spectra_of_scaled_copies_coincide", f"{meth}: {str(a)[:40]} vs {str(b)[:40]}")
-            continue
-        a, b = np.array(a), np.array(b)
-        if np.all(np.isfinite(a)) and np.abs(a - b).max() > 5e-6 * (np.abs(a).max() + 1e-300):
-            bad("normalised_spectra_of_scaled_copies_coincide", f"{meth}: max diff {np.abs(a - b).max()}")
+        for tag, clause in (("_scaled", "normalised_spectra_of_scaled_copies_coincide"),
+                            ("_far", "normalised_spectra_of_translated_copies_coincide")):
+            a, b = out["norm_" + meth], out["norm_" + meth + tag]
+            if isinstance(a, str) or isinstance(b, str):
+                if a != b:
+                    bad(clause, f"{meth}: {str(a)[:40]} vs {str(b)[:40]}")
+                continue
+            a, b = np.array(a), np.array(b)
+            if np.all(np.isfinite(a)) and np.abs(a - b).max() > 5e-6 * (np.abs(a).max() + 1e-300):
+                bad(clause, f"{meth}: max diff {np.abs(a - b).max()}")
     rw = np.array(out["reweight"])
     if np.abs(rw - ev / np.arange(1, k + 1)).max() > 1e-12 * sc:
         bad("reweight_ev_divides_ith_value_by_i", "differs")
